@@ -357,6 +357,10 @@ class Models(object):
 
         weight, log_flux, log_error = source.get_log_fluxes()
 
+        # Points that are not used or only plotted should never influence the
+        # fit, whatever values they carry
+        log_flux[(source.valid == 0) | (source.valid == 9)] = 0.
+
         model_fluxes = self.log_fluxes_mJy
 
         if model_fluxes.ndim == 2:  # Aperture-independent fitting
